@@ -146,3 +146,8 @@ CONFIGS['cacks_quick'] = dict(_AK, hkind='fn', ns_h=['/'],
                                    'e_tup2', 'e_bin', 'e_unh', 'e_raise'],
                               ids=[-1, 0, 7],
                               ack_args=[[], ['v1', 'v2']])
+
+# larger budgets, explored by seeded random histories only (walks)
+CONFIGS['cstate_big'] = dict(_ST, hkind='fn', max_sid=12, max_ack=4)
+CONFIGS['cacks_big'] = dict(_AK, hkind='class', max_sid=8, max_ack=5,
+                            ack_ids=[0, 1, 2, 3, 4, 5, 9])
